@@ -160,6 +160,8 @@ STRUCTURAL_KINDS = [
     "params", "result", "partial", "errordata", "regopts", "regmethod", "version", "drop-struct", "drop-alias", "swap-structs",
     "alias-type", "alias-name", "swap-aliases", "notif-method", "drop-enum", "literal-prop", "array-element", "or-order",
     "or-to-tuple", "tuple-to-or", "and-to-or", "array-to-map",
+    # declarations that differ in what is generated from them: an enumeration that is open or closed, the name of a message's class
+    "enum-open", "type-name",
 ]
 
 
@@ -195,6 +197,18 @@ def structural_edit(doc: dict, kind: Optional[str] = None) -> st.SearchStrategy:
             e["type"]["name"] = "integer" if e["type"]["name"] == "uinteger" else "uinteger"
         elif k == "method":
             pick(d["requests"])["method"] += "X"
+        elif k == "enum-open":
+            e = pick(d["enumerations"])
+            if e.get("supportsCustomValues"):
+                e.pop("supportsCustomValues")
+            else:
+                e["supportsCustomValues"] = True
+        elif k == "type-name":
+            m = pick(d["requests"] + d["notifications"])
+            if m.get("typeName") and draw(st.booleans()):
+                m.pop("typeName")
+            else:
+                m["typeName"] = (m.get("typeName") or "Vx") + "Other"
         elif k == "notif-method":
             pick(d["notifications"])["method"] += "X"
         elif k == "direction":
